@@ -67,6 +67,9 @@ pub struct World {
     pub clusters: BTreeMap<String, Cluster>,
     /// model address (1..) -> socket address
     pub addrs: Vec<SocketAddr>,
+    /// `Some(n)`: every new backend gets a real `ExponentialBackoffPolicy::new(n)` instead of the budget of 6
+    /// hard-coded in `Backend::new` (the field is public), so that short histories reach the exhausted budget
+    pub retry_budget: Option<usize>,
 }
 
 pub fn policy_of(name: &str) -> LoadBalancingAlgorithms {
@@ -117,7 +120,7 @@ pub fn addr_table(n: usize, variant: u64, unreachable: usize) -> Vec<SocketAddr>
 
 impl World {
     pub fn new(addrs: Vec<SocketAddr>) -> World {
-        World { map: BackendMap::new(), clusters: BTreeMap::new(), addrs }
+        World { map: BackendMap::new(), clusters: BTreeMap::new(), addrs, retry_budget: None }
     }
 
     pub fn sock(&self, addr: i64) -> SocketAddr {
@@ -175,6 +178,9 @@ impl World {
         let listed = self.real_list(c);
         for rc in listed {
             if self.oid_of(c, &rc) == 0 {
+                if let Some(n) = self.retry_budget {
+                    rc.borrow_mut().retry_policy = sozu_lib::retry::ExponentialBackoffPolicy::new(n).into();
+                }
                 let k = self.cl(c);
                 let oid = k.next_oid;
                 k.next_oid += 1;
